@@ -22,6 +22,7 @@ metaclasses, relate instances and perform navigations and queries.
 
 import collections.abc
 import logging
+import weakref
 import xtuml
 
 from functools import partial
@@ -501,6 +502,7 @@ class MetaClass(object):
         self.indices = dict()
         self.links = dict()
         self.storage = list()
+        self.deleted = weakref.WeakSet()
         self.clazz = type(str(kind), (Class,), dict(__metaclass__=self))
         
     def __call__(self, *args, **kwargs):
@@ -675,6 +677,7 @@ class MetaClass(object):
         '''
         if instance in self.storage:
             self.storage.remove(instance)
+            self.deleted.add(instance)
         else:
             raise DeleteException("Instance not found in the instance pool")
 
@@ -1022,6 +1025,11 @@ def relate(from_instance, to_instance, rel_id, phrase=''):
         return False
 
     inst1, inst2, ass = _find_link(from_instance, to_instance, rel_id, phrase)
+    for inst in (inst1, inst2):
+        if inst in get_metaclass(inst).deleted:
+            # a deleted instance must not become reachable again
+            raise RelateException(from_instance, to_instance, rel_id, phrase)
+    
     if not ass.source_link.connect(inst1, inst2):
         raise RelateException(from_instance, to_instance, rel_id, phrase)
 
